@@ -14,6 +14,12 @@
 (*                     still running afterwards, so the client can use it  *)
 (*                     for the next stack (the library's own slow tests    *)
 (*                     run one pool over many stacks)                      *)
+(*   CallDefault(a,n)  neither ncpus nor a pool given: the callee sizes    *)
+(*                     its own pool from the number a >= 1 of CPUs the     *)
+(*                     process may run on - the documented "safe default": *)
+(*                     one less than available, and never less than the    *)
+(*                     documented fallback of 1 (a pool of 0 workers does  *)
+(*                     not exist; PoolImap.tla needs w >= 1)               *)
 (*   ClientClose(p)    only the client ever shuts its pool down            *)
 (*   CallOnClosed(p,n) named deviation, promised by no property: a call on *)
 (*                     a pool the CLIENT has closed fails                  *)
@@ -24,6 +30,7 @@
 EXTENDS Integers, Sequences, FiniteSets, TLC, TLCExt, Json
 CONSTANTS Pools,      \* identifiers of client-owned pools
           Sizes,      \* stack lengths offered
+          Avail,      \* numbers of CPUs the process may be restricted to
           MaxOps
 VARIABLES state,      \* [Pools -> "open" | "closed"]
           last,       \* outcome of the last call: "ok" | "error" | "none"
@@ -32,13 +39,17 @@ vars == <<state, last, ops, log>>
 Init == state = [p \in Pools |-> "open"] /\ last = "none" /\ ops = 0 /\ log = <<>>
 Tick(e) == ops < MaxOps /\ ops' = ops + 1 /\ log' = Append(log, e)
 CallOwn(n) == /\ Tick([a |-> "CallOwn", n |-> n]) /\ last' = "ok" /\ UNCHANGED state
+DefaultWorkers(a) == IF a > 1 THEN a - 1 ELSE 1
+CallDefault(a, n) == /\ Tick([a |-> "CallDefault", avail |-> a, n |-> n, w |-> DefaultWorkers(a)])
+                     /\ DefaultWorkers(a) >= 1          \* a worker pool exists
+                     /\ last' = "ok" /\ UNCHANGED state
 CallSupplied(p, n) == /\ Tick([a |-> "CallSupplied", p |-> p, n |-> n]) /\ state[p] = "open"
                       /\ last' = "ok" /\ UNCHANGED state          \* borrowed, not owned
 ClientClose(p) == /\ Tick([a |-> "ClientClose", p |-> p]) /\ state[p] = "open"
                   /\ state' = [state EXCEPT ![p] = "closed"] /\ last' = "none"
 CallOnClosed(p, n) == /\ Tick([a |-> "CallOnClosed", p |-> p, n |-> n]) /\ state[p] = "closed"
                       /\ last' = "error" /\ UNCHANGED state
-Next == \/ \E n \in Sizes : CallOwn(n)
+Next == \/ \E n \in Sizes : CallOwn(n) \/ \E a \in Avail : CallDefault(a, n)
         \/ \E p \in Pools, n \in Sizes : CallSupplied(p, n) \/ CallOnClosed(p, n)
         \/ \E p \in Pools : ClientClose(p)
 Spec == Init /\ [][Next]_vars
@@ -46,6 +57,8 @@ Spec == Init /\ [][Next]_vars
 OnlyClientCloses == [][\A p \in Pools : state'[p] # state[p] => (log' # log /\ log'[Len(log')].a = "ClientClose" /\ log'[Len(log')].p = p)]_vars
 \* every call on a running supplied pool succeeds, however many calls came before
 SuppliedCallsSucceed == (log # <<>> /\ log[Len(log)].a = "CallSupplied") => last = "ok"
+\* the default worker count is usable in every environment and never oversubscribes
+DefaultUsable == \A a \in Avail : DefaultWorkers(a) \in 1..a
 View == <<state, last, ops>>
 EmitAtEnd == ops = MaxOps => PrintT(<<"BEH", ToJson([i \in 1..Len(log) |-> log[i]])>>)
 =============================================================================
